@@ -12,20 +12,15 @@ invariant, and every assignment of the public inputs:
   value of every existing id and re-establishes the cache / pool invariants.
 * `compileExt_sound` — the same for `compile_ext`, including lifted base sub-trees (which go
   through `compile_base` with the shared base cache).
-* `evalFolded_sound` — `eval_folded_circuit`'s two loops: the returned target evaluates to
-  `nativeFold α (base values ++ extension values)`.
-* `evalFoldedAir_reordered` — hence for *any* emission order of an AIR the circuit computes the
-  native fold of the base constraints followed by the extension constraints.
-* `evalFoldedAir_sound_partial` — C13 for AIRs that emit no extension constraint before a base
-  constraint: circuit value = native folder value.
+* `evalFoldedAir_sound` — **the full C13 statement**: for every emission order of base and
+  extension constraints, the target returned by `eval_folded_circuit` evaluates to the native
+  constraint folder's accumulator (`acc ← acc·α + c` in emission order).
 
-  FULL STATEMENT (what C13 asks): the conclusion of `evalFoldedAir_sound_partial` for every
-  emission order `em`, without `BaseFirst em`. It is FALSE of the current code: the native
-  folder (`VerifierConstraintFolderWithLookups`) folds in emission order, `eval_folded_circuit`
-  folds all base constraints first. `P3R.Witness.C13.fold_order_counterexample` proves the
-  negation on a two-constraint AIR; the harness replays that AIR on the real code every run.
-  What is missing for the full statement is a change of `eval_folded_circuit` (fold in
-  `constraint_layout` order, `fixes/C13-1.diff`), not a proof.
+  History: before the repair of finding F-C13-1 `eval_folded_circuit` folded all base
+  constraints before all extension constraints and this statement was false for AIRs that
+  assert an extension constraint before a base constraint; only a `…_partial` version under
+  `BaseFirst em` was provable. `Witness/C13.lean` keeps the two-constraint AIR as a record
+  (and as a regression case of the harness).
 * `nativeFoldedT_eq` — the bottom-up tables the driver executes equal the recursive native
   evaluation the theorems speak about.
 -/
@@ -318,198 +313,107 @@ structure FInv (ρ : Nat → K) (s0 : BState K) (bdag : Array (BNode K)) (xdag :
   kx : KInv xdag.size st.xc
   acc : st.b.val ρ st.acc = some accv
 
-theorem foldBase_loop (ρ : Nat → K) (s0 : BState K) (bdag : Array (BNode K)) (hwfb : WfB bdag)
+theorem foldBaseStep_sound (ρ : Nat → K) (s0 : BState K) (bdag : Array (BNode K)) (hwfb : WfB bdag)
     (xdag : Array (XNode K)) (T : Cols Nat) (E : Cols K) (hA : Agree (s0.val ρ) T E)
-    (alpha : Nat) (α : K) (hα : s0.val ρ alpha = some α) :
-    ∀ (roots : List Nat) (vals : List K) (st : FoldSt K) (accv : K),
-      roots.mapM (nvB bdag E) = some vals → FInv ρ s0 bdag xdag E st accv →
-      ∃ st', roots.foldlM (foldBaseStep bdag T alpha) st = some st' ∧
-        FInv ρ s0 bdag xdag E st' (vals.foldl (fun acc c => acc * α + c) accv) := by
-  intro roots
-  induction roots with
-  | nil =>
-    intro vals st accv hm hF
-    simp at hm; subst hm
-    exact ⟨st, by simp, by simpa using hF⟩
-  | cons r rs ih =>
-    intro vals st accv hm hF
-    rw [List.mapM_cons] at hm
-    cases hr : nvB bdag E r with
-    | none => simp [hr] at hm
-    | some c =>
-      cases hrs : rs.mapM (nvB bdag E) with
-      | none => simp [hr, hrs] at hm
-      | some cs =>
-        simp [hr, hrs] at hm
-        subst hm
-        obtain ⟨id, bc', b', h1, h2, h3, h4, h5, h6⟩ :=
-          compileBase_sound ρ s0 st.b bdag hwfb T E hA r c hr st.bc hF.binv hF.le0 hF.cb hF.kb
-        have hle0' : Le ρ s0 b' := Le.trans hF.le0 h3
-        obtain ⟨m1, m2, m3⟩ := mulAdd_sound h2 st.acc alpha id accv α c (h3 _ _ hF.acc) (hle0' _ _ hα) h6
-        have hF' : FInv ρ s0 bdag xdag E
-            { st with b := (b'.mulAdd st.acc alpha id).1, bc := bc', acc := (b'.mulAdd st.acc alpha id).2,
-                      ids := st.ids ++ [id] } (accv * α + c) :=
-          ⟨m1, Le.trans hle0' m2, cinv_mono h4 m2, h5,
-            cinv_mono (s' := ((b'.mulAdd st.acc alpha id).1, ([] : Cache))) hF.cx
-              (fun i w h => m2 _ _ (h3 _ _ h)), hF.kx, m3⟩
-        obtain ⟨st', hrun, hF''⟩ := ih cs _ _ hrs hF'
-        refine ⟨st', ?_, by simpa using hF''⟩
-        simp only [List.foldlM_cons, foldBaseStep, h1, Option.map_some, Option.bind_eq_bind,
-          Option.bind_some]
-        exact hrun
+    (alpha : Nat) (α : K) (hα : s0.val ρ alpha = some α) (st : FoldSt K) (accv : K) (r : Nat) (c : K)
+    (hr : nvB bdag E r = some c) (hF : FInv ρ s0 bdag xdag E st accv) :
+    ∃ st', foldBaseStep bdag T alpha st r = some st' ∧ FInv ρ s0 bdag xdag E st' (accv * α + c) := by
+  obtain ⟨id, bc', b', h1, h2, h3, h4, h5, h6⟩ :=
+    compileBase_sound ρ s0 st.b bdag hwfb T E hA r c hr st.bc hF.binv hF.le0 hF.cb hF.kb
+  have hle0' : Le ρ s0 b' := Le.trans hF.le0 h3
+  obtain ⟨m1, m2, m3⟩ := mulAdd_sound h2 st.acc alpha id accv α c (h3 _ _ hF.acc) (hle0' _ _ hα) h6
+  refine ⟨{ st with b := (b'.mulAdd st.acc alpha id).1, bc := bc', acc := (b'.mulAdd st.acc alpha id).2,
+                     ids := st.ids ++ [id] }, by simp [foldBaseStep, h1], ?_⟩
+  exact ⟨m1, Le.trans hle0' m2, cinv_mono h4 m2, h5,
+    cinv_mono (s' := ((b'.mulAdd st.acc alpha id).1, ([] : Cache))) hF.cx
+      (fun i w h => m2 _ _ (h3 _ _ h)), hF.kx, m3⟩
 
-theorem foldExt_loop (ρ : Nat → K) (s0 : BState K) (bdag : Array (BNode K)) (hwfb : WfB bdag)
+theorem foldExtStep_sound (ρ : Nat → K) (s0 : BState K) (bdag : Array (BNode K)) (hwfb : WfB bdag)
+    (xdag : Array (XNode K)) (hwf : WfX xdag) (T : Cols Nat) (E : Cols K)
+    (hA : Agree (s0.val ρ) T E) (alpha : Nat) (α : K) (hα : s0.val ρ alpha = some α)
+    (st : FoldSt K) (accv : K) (r : Nat) (c : K) (hr : nvX bdag xdag E r = some c)
+    (hF : FInv ρ s0 bdag xdag E st accv) :
+    ∃ st', foldExtStep bdag xdag T alpha st r = some st' ∧
+      FInv ρ s0 bdag xdag E st' (accv * α + c) := by
+  obtain ⟨id, bc', xc', b', h1, h2, h3, h4, h5, h6, h7, h8⟩ :=
+    compileExt_sound ρ s0 st.b bdag hwfb xdag hwf T E hA r c hr st.bc st.xc hF.binv hF.le0
+      hF.cb hF.kb hF.cx hF.kx
+  have hle0' : Le ρ s0 b' := Le.trans hF.le0 h3
+  obtain ⟨m1, m2, m3⟩ := mulAdd_sound h2 st.acc alpha id accv α c (h3 _ _ hF.acc) (hle0' _ _ hα) h8
+  refine ⟨{ b := (b'.mulAdd st.acc alpha id).1, bc := bc', xc := xc',
+            acc := (b'.mulAdd st.acc alpha id).2, ids := st.ids ++ [id] },
+    by simp [foldExtStep, h1], ?_⟩
+  exact ⟨m1, Le.trans hle0' m2, cinv_mono h4 m2, h5,
+    cinv_mono (s' := ((b'.mulAdd st.acc alpha id).1, ([] : Cache))) h6 (fun i w h => m2 _ _ h),
+    h7, m3⟩
+
+/-- The folding loop, over any emission order. -/
+theorem fold_loop (ρ : Nat → K) (s0 : BState K) (bdag : Array (BNode K)) (hwfb : WfB bdag)
     (xdag : Array (XNode K)) (hwf : WfX xdag) (T : Cols Nat) (E : Cols K)
     (hA : Agree (s0.val ρ) T E) (alpha : Nat) (α : K) (hα : s0.val ρ alpha = some α) :
-    ∀ (roots : List Nat) (vals : List K) (st : FoldSt K) (accv : K),
-      roots.mapM (nvX bdag xdag E) = some vals → FInv ρ s0 bdag xdag E st accv →
-      ∃ st', roots.foldlM (foldExtStep bdag xdag T alpha) st = some st' ∧
+    ∀ (em : Emission) (vals : List K) (st : FoldSt K) (accv : K),
+      emissionValues bdag xdag E em = some vals → FInv ρ s0 bdag xdag E st accv →
+      ∃ st', em.foldlM (foldStep bdag xdag T alpha) st = some st' ∧
         FInv ρ s0 bdag xdag E st' (vals.foldl (fun acc c => acc * α + c) accv) := by
-  intro roots
-  induction roots with
+  intro em
+  induction em with
   | nil =>
     intro vals st accv hm hF
-    simp at hm; subst hm
+    simp [emissionValues] at hm; subst hm
     exact ⟨st, by simp, by simpa using hF⟩
-  | cons r rs ih =>
+  | cons p ps ih =>
     intro vals st accv hm hF
+    unfold emissionValues at hm
     rw [List.mapM_cons] at hm
-    cases hr : nvX bdag xdag E r with
-    | none => simp [hr] at hm
+    cases hp : (if p.1 then nvX bdag xdag E p.2 else nvB bdag E p.2) with
+    | none => simp [hp] at hm
     | some c =>
-      cases hrs : rs.mapM (nvX bdag xdag E) with
-      | none => simp [hr, hrs] at hm
+      cases hps : ps.mapM (fun p => if p.1 then nvX bdag xdag E p.2 else nvB bdag E p.2) with
+      | none => simp [hp, hps] at hm
       | some cs =>
-        simp [hr, hrs] at hm
+        simp [hp, hps] at hm
         subst hm
-        obtain ⟨id, bc', xc', b', h1, h2, h3, h4, h5, h6, h7, h8⟩ :=
-          compileExt_sound ρ s0 st.b bdag hwfb xdag hwf T E hA r c hr st.bc st.xc hF.binv hF.le0
-            hF.cb hF.kb hF.cx hF.kx
-        have hle0' : Le ρ s0 b' := Le.trans hF.le0 h3
-        obtain ⟨m1, m2, m3⟩ := mulAdd_sound h2 st.acc alpha id accv α c (h3 _ _ hF.acc) (hle0' _ _ hα) h8
-        have hF' : FInv ρ s0 bdag xdag E
-            { b := (b'.mulAdd st.acc alpha id).1, bc := bc', xc := xc',
-              acc := (b'.mulAdd st.acc alpha id).2, ids := st.ids ++ [id] } (accv * α + c) :=
-          ⟨m1, Le.trans hle0' m2, cinv_mono h4 m2, h5,
-            cinv_mono (s' := ((b'.mulAdd st.acc alpha id).1, ([] : Cache))) h6 (fun i w h => m2 _ _ h),
-            h7, m3⟩
-        obtain ⟨st', hrun, hF''⟩ := ih cs _ _ hrs hF'
-        refine ⟨st', ?_, by simpa using hF''⟩
-        simp only [List.foldlM_cons, foldExtStep, h1, Option.map_some, Option.bind_eq_bind,
-          Option.bind_some]
+        have hstep : ∃ st1, foldStep bdag xdag T alpha st p = some st1 ∧
+            FInv ρ s0 bdag xdag E st1 (accv * α + c) := by
+          unfold foldStep
+          by_cases hx : p.1 = true
+          · simp only [hx, if_true] at hp ⊢
+            exact foldExtStep_sound ρ s0 bdag hwfb xdag hwf T E hA alpha α hα st accv p.2 c hp hF
+          · have hx' : p.1 = false := by simpa using hx
+            simp only [hx', Bool.false_eq_true, if_false] at hp ⊢
+            exact foldBaseStep_sound ρ s0 bdag hwfb xdag T E hA alpha α hα st accv p.2 c hp hF
+        obtain ⟨st1, h1, hF1⟩ := hstep
+        obtain ⟨st', hrun, hF'⟩ := ih cs st1 _ hps hF1
+        refine ⟨st', ?_, by simpa using hF'⟩
+        simp only [List.foldlM_cons, h1, Option.bind_eq_bind, Option.bind_some]
         exact hrun
 
-/-- **C13 / folding.** `eval_folded_circuit` on base constraints `baseRoots` and extension
-constraints `extRoots` returns a target whose value is the native accumulation
-`acc ← acc·α + c` over the base values followed by the extension values. -/
-theorem evalFolded_sound (ρ : Nat → K) (s0 : BState K) (hI : BInv ρ s0) (bdag : Array (BNode K))
-    (hwfb : WfB bdag) (xdag : Array (XNode K)) (hwf : WfX xdag) (T : Cols Nat) (E : Cols K)
-    (hA : Agree (s0.val ρ) T E) (alpha : Nat) (α : K) (hα : s0.val ρ alpha = some α)
-    (baseRoots extRoots : List Nat) (bvals xvals : List K)
-    (hb : baseRoots.mapM (nvB bdag E) = some bvals)
-    (hx : extRoots.mapM (nvX bdag xdag E) = some xvals) :
-    ∃ st, evalFolded bdag xdag T alpha baseRoots extRoots s0 = some st ∧
-      st.b.val ρ st.acc = some (nativeFold α (bvals ++ xvals)) ∧ BInv ρ st.b ∧ Le ρ s0 st.b := by
-  obtain ⟨z1, z2, z3⟩ := defineConst_sound hI (0 : K)
-  have hF0 : FInv ρ s0 bdag xdag E
-      { b := (s0.defineConst 0).1, bc := [], xc := [], acc := (s0.defineConst 0).2, ids := [] } 0 :=
-    ⟨z1, z2, fun n id h => by simp at h, kinv_nil _, fun n id h => by simp at h, kinv_nil _, z3⟩
-  obtain ⟨st1, hr1, hF1⟩ := foldBase_loop ρ s0 bdag hwfb xdag T E hA alpha α hα baseRoots bvals _ 0 hb hF0
-  obtain ⟨st2, hr2, hF2⟩ := foldExt_loop ρ s0 bdag hwfb xdag hwf T E hA alpha α hα extRoots xvals st1 _ hx hF1
-  refine ⟨st2, ?_, ?_, hF2.binv, hF2.le0⟩
-  · simp only [evalFolded, hr1, Option.bind_some]
-    exact hr2
-  · rw [nativeFold_append]
-    exact hF2.acc
-
-/-! ### Emission order -/
-
-/-- The constraints of an emission, base constraints first (each stream in its own order). -/
-def reorder (em : Emission) : Emission := em.filter (fun p => !p.1) ++ em.filter (fun p => p.1)
-
-/-- No extension constraint is emitted before a base constraint. -/
-def BaseFirst (em : Emission) : Prop := reorder em = em
-
-theorem mapM_baseRoots (bdag : Array (BNode K)) (xdag : Array (XNode K)) (E : Cols K) (em : Emission) :
-    (em.filter (fun p => !p.1)).mapM (fun p => if p.1 then nvX bdag xdag E p.2 else nvB bdag E p.2) =
-      em.baseRoots.mapM (nvB bdag E) := by
-  induction em with
-  | nil => rfl
-  | cons p em ih =>
-    obtain ⟨x, r⟩ := p
-    cases x
-    · simp only [Bool.not_false, List.filter_cons_of_pos, List.mapM_cons, Bool.false_eq_true,
-        if_false, Emission.baseRoots, List.filterMap_cons]
-      simp only [Emission.baseRoots] at ih
-      rw [ih]
-    · simpa [Emission.baseRoots] using ih
-
-theorem mapM_extRoots (bdag : Array (BNode K)) (xdag : Array (XNode K)) (E : Cols K) (em : Emission) :
-    (em.filter (fun p => p.1)).mapM (fun p => if p.1 then nvX bdag xdag E p.2 else nvB bdag E p.2) =
-      em.extRoots.mapM (nvX bdag xdag E) := by
-  induction em with
-  | nil => rfl
-  | cons p em ih =>
-    obtain ⟨x, r⟩ := p
-    cases x
-    · simpa [Emission.extRoots] using ih
-    · simp only [List.filter_cons_of_pos, List.mapM_cons, if_true, Emission.extRoots,
-        List.filterMap_cons]
-      simp only [Emission.extRoots] at ih
-      rw [ih]
-
-theorem mapM_append_some {α β : Type} (f : α → Option β) (l1 l2 : List α) (v : List β)
-    (h : (l1 ++ l2).mapM f = some v) :
-    ∃ v1 v2, l1.mapM f = some v1 ∧ l2.mapM f = some v2 ∧ v = v1 ++ v2 := by
-  induction l1 generalizing v with
-  | nil => exact ⟨[], v, rfl, by simpa using h, rfl⟩
-  | cons a l1 ih =>
-    rw [List.cons_append, List.mapM_cons] at h
-    cases ha : f a with
-    | none => simp [ha] at h
-    | some b =>
-      cases hr : (l1 ++ l2).mapM f with
-      | none => simp [ha, hr] at h
-      | some w =>
-        simp [ha, hr] at h
-        subst h
-        obtain ⟨v1, v2, h1, h2, h3⟩ := ih w hr
-        exact ⟨b :: v1, v2, by simp [List.mapM_cons, ha, h1], h2, by simp [h3]⟩
-
-/-- **C13 for any emission order (what the circuit really computes).** For an AIR emitting the
-constraints `em`, `eval_folded_circuit` returns a target whose value is the native folder's
-accumulator *for the emission `reorder em`* — all base constraints, then all extension
-constraints. -/
-theorem evalFoldedAir_reordered (ρ : Nat → K) (s0 : BState K) (hI : BInv ρ s0) (bdag : Array (BNode K))
-    (hwfb : WfB bdag) (xdag : Array (XNode K)) (hwf : WfX xdag) (T : Cols Nat) (E : Cols K)
-    (hA : Agree (s0.val ρ) T E) (alpha : Nat) (α : K) (hα : s0.val ρ alpha = some α)
-    (em : Emission) (v : K) (hv : nativeFolded bdag xdag E α (reorder em) = some v) :
-    ∃ st, evalFoldedAir bdag xdag T alpha em s0 = some st ∧ st.b.val ρ st.acc = some v := by
-  unfold nativeFolded emissionValues at hv
-  cases hm : (reorder em).mapM (fun p => if p.1 then nvX bdag xdag E p.2 else nvB bdag E p.2) with
+/-- **C13.** For every AIR — every emission order `em` of base and extension constraints over
+every symbolic DAG (all leaf kinds, any sharing, any depth) — every assignment of the opened
+values (`E`, carried by the targets `T`: `Agree`), every challenge `α` and every builder state
+satisfying the pool invariant: whenever the native constraint folder evaluates to `v`
+(`nativeFolded`: recursive evaluation of every constraint, `acc ← acc·α + c` in emission
+order), `eval_folded_circuit` returns a target whose value is `v`. -/
+theorem evalFoldedAir_sound (ρ : Nat → K) (s0 : BState K) (hI : BInv ρ s0)
+    (bdag : Array (BNode K)) (hwfb : WfB bdag) (xdag : Array (XNode K)) (hwf : WfX xdag)
+    (T : Cols Nat) (E : Cols K) (hA : Agree (s0.val ρ) T E) (alpha : Nat) (α : K)
+    (hα : s0.val ρ alpha = some α) (em : Emission) (v : K)
+    (hv : nativeFolded bdag xdag E α em = some v) :
+    ∃ st, evalFoldedAir bdag xdag T alpha em s0 = some st ∧ st.b.val ρ st.acc = some v ∧
+      BInv ρ st.b ∧ Le ρ s0 st.b := by
+  unfold nativeFolded at hv
+  cases hm : emissionValues bdag xdag E em with
   | none => simp [hm] at hv
   | some vals =>
     simp only [hm, Option.map_some, Option.some.injEq] at hv
-    obtain ⟨v1, v2, h1, h2, h3⟩ := mapM_append_some _ _ _ _ hm
-    rw [mapM_baseRoots] at h1
-    rw [mapM_extRoots] at h2
-    obtain ⟨st, hst, hval, _, _⟩ :=
-      evalFolded_sound ρ s0 hI bdag hwfb xdag hwf T E hA alpha α hα em.baseRoots em.extRoots v1 v2 h1 h2
-    exact ⟨st, hst, by rw [hval, ← h3, hv]⟩
-
-/-- **C13 (partial).** If the AIR emits no extension constraint before a base constraint
-(`BaseFirst em`; true of every AIR in /repo, whose only extension constraints are the LogUp
-constraints appended after `air.eval`), the folded target evaluates to the native constraint
-folder's accumulator, for every DAG, assignment, cache-sharing pattern and builder state
-satisfying the pool invariant. -/
-theorem evalFoldedAir_sound_partial (ρ : Nat → K) (s0 : BState K) (hI : BInv ρ s0)
-    (bdag : Array (BNode K)) (hwfb : WfB bdag) (xdag : Array (XNode K)) (hwf : WfX xdag)
-    (T : Cols Nat) (E : Cols K) (hA : Agree (s0.val ρ) T E) (alpha : Nat) (α : K)
-    (hα : s0.val ρ alpha = some α) (em : Emission) (hbf : BaseFirst em) (v : K)
-    (hv : nativeFolded bdag xdag E α em = some v) :
-    ∃ st, evalFoldedAir bdag xdag T alpha em s0 = some st ∧ st.b.val ρ st.acc = some v := by
-  have : nativeFolded bdag xdag E α (reorder em) = some v := by rw [hbf]; exact hv
-  exact evalFoldedAir_reordered ρ s0 hI bdag hwfb xdag hwf T E hA alpha α hα em v this
+    obtain ⟨z1, z2, z3⟩ := defineConst_sound hI (0 : K)
+    have hF0 : FInv ρ s0 bdag xdag E
+        { b := (s0.defineConst 0).1, bc := [], xc := [], acc := (s0.defineConst 0).2, ids := [] } 0 :=
+      ⟨z1, z2, fun n id h => by simp at h, kinv_nil _, fun n id h => by simp at h, kinv_nil _, z3⟩
+    obtain ⟨st, hrun, hF⟩ := fold_loop ρ s0 bdag hwfb xdag hwf T E hA alpha α hα em vals _ 0 hm hF0
+    refine ⟨st, by simpa [evalFoldedAir] using hrun, ?_, hF.binv, hF.le0⟩
+    rw [← hv]
+    exact hF.acc
 
 /-- The executable tables of the driver compute the native folder value of the theorems. -/
 theorem nativeFoldedT_eq (bdag : Array (BNode K)) (hwfb : WfB bdag) (xdag : Array (XNode K))
@@ -527,11 +431,10 @@ theorem nativeFoldedT_eq (bdag : Array (BNode K)) (hwfb : WfB bdag) (xdag : Arra
 /-! ### Non-vacuity of the hypotheses -/
 
 /-- `BInv` holds for a fresh builder, `Agree` for the empty column set once three selector
-targets exist, `WfB`/`WfX` for the empty DAG, `BaseFirst` for a two-constraint emission. -/
+targets exist, `WfB`/`WfX` for small DAGs. -/
 example (ρ : Nat → K) : BInv ρ (BState.init : BState K) := binv_init ρ
 example : WfB (#[] : Array (BNode K)) := fun i nd h => by simp at h
 example : WfX (#[.base 0] : Array (XNode K)) := wfX_sound rfl
-example : BaseFirst [(false, 0), (true, 0)] := by unfold BaseFirst; rfl
 example (ρ : Nat → K) :
     Agree ((BState.init : BState K).val ρ) { isFirst := 0, isLast := 0, isTrans := 0, cat := fun _ => #[] }
       { isFirst := 0, isLast := 0, isTrans := 0, cat := fun _ => #[] } :=
@@ -541,7 +444,5 @@ end P3R.C13
 
 #print axioms P3R.C13.compileBase_sound
 #print axioms P3R.C13.compileExt_sound
-#print axioms P3R.C13.evalFolded_sound
-#print axioms P3R.C13.evalFoldedAir_reordered
-#print axioms P3R.C13.evalFoldedAir_sound_partial
+#print axioms P3R.C13.evalFoldedAir_sound
 #print axioms P3R.C13.nativeFoldedT_eq
